@@ -542,6 +542,10 @@ def render_task(prog, nm):
             d['input'] = t['input']
     elif act == 'noop':
         d['action'] = 'std.noop'
+    elif act == 'echo_bare':
+        # no input at all: the parameters come from the environment's
+        # action defaults (env: {__actions: {std.echo: {output: ...}}})
+        d['action'] = 'std.echo'
     elif act == 'echo':
         d['action'] = 'std.echo output="x"'
     if t.get('join') is not None:
